@@ -29,14 +29,16 @@ Proof.
   - clear -H2 D6. induction H2 as [|t' t l' l (_ & B & _) _ IH]; [constructor|]. inversion D6; subst. constructor; [rewrite <- B; assumption|apply IH; assumption].
 Qed.
 
-Theorem canonical_document_with_a_duplicate_is_rejected v ts :
+(* in EVERY LAYOUT with the same tokens (Proofs/LexFit.relay), and for every text the pre-pass turns into one *)
+Theorem every_layout_with_a_duplicate_is_rejected v ts L d :
   std_version v = true -> Forall type_lex_ok ts -> Forall type_ok ts -> ~ distinct_decls (doc_file v ts) ->
-  forall m exts md, dsl_to_model (text_of (ctoks_doc v ts) ++ [10]) <> DOk m exts md.
+  Forall2 relay (kts (ctoks_doc v ts)) L -> prepass d = concat (map snd L) ->
+  forall m exts md, dsl_to_model d <> DOk m exts md.
 Proof.
-  intros Hv Hlex Hok Hnd m exts md H. apply Hnd.
-  destruct (canonical_document_reads_back v ts Hv Hlex Hok) as [Herr (f' & Hp & Hf)].
-  unfold dsl_to_model in H. rewrite (canonical_document_prepass v ts Hv Hlex) in H.
-  destruct (lex (text_of (ctoks_doc v ts))) as [L es]. cbn [fst snd] in Herr, Hp. subst es.
+  intros Hv Hlex Hok Hnd HL Hpre m exts md H. apply Hnd.
+  destruct (every_layout_reads_back v ts L Hv Hlex Hok HL) as (Herr & _ & f' & Hp & Hf).
+  unfold dsl_to_model in H. rewrite Hpre in H.
+  destruct (lex (concat (map snd L))) as [Lx es]. cbn [fst snd] in Herr, Hp. subst es.
   unfold parse_walk in H. rewrite Hp in H.
   destruct (doc_sem f' v ts Hf Hlex) as (_ & Hwf & _).
   destruct (walk f') as [st| |] eqn:Ew; try discriminate H.
@@ -49,5 +51,17 @@ Proof.
   inversion Hts as [|? ? Ht Hts']; subst. constructor; [|apply (IH _ eq_refl Hts')].
   destruct (type_sem t' _ eq_refl Ht) as (_ & B & _). unfold tname. rewrite B. destruct Ht as [[_ Hn] _]. intros E.
   rewrite E in Hn. discriminate Hn.
+Qed.
+Print Assumptions every_layout_with_a_duplicate_is_rejected.
+
+(* the canonical layout is one of them *)
+Theorem canonical_document_with_a_duplicate_is_rejected v ts :
+  std_version v = true -> Forall type_lex_ok ts -> Forall type_ok ts -> ~ distinct_decls (doc_file v ts) ->
+  forall m exts md, dsl_to_model (text_of (ctoks_doc v ts) ++ [10]) <> DOk m exts md.
+Proof.
+  intros Hv Hlex Hok Hnd.
+  apply (every_layout_with_a_duplicate_is_rejected v ts (kts (ctoks_doc v ts))); try assumption.
+  - exact (fits_relay_refl _ _ (recs_doc v ts Hv Hlex)).
+  - exact (canonical_document_prepass v ts Hv Hlex).
 Qed.
 Print Assumptions canonical_document_with_a_duplicate_is_rejected.
